@@ -130,6 +130,31 @@ CLAIMED.update({
    "Which alternative encodings an unmarshaller accepts is a transcribed table (drift only); the verdict comes from the laws on real values."),
 })
 
+CLAIMED.update({
+ "C17": ("model_checking",
+   "TLA+ spec Container.tla (writer -> damage -> CAR/CBOR reader machines) model-checked with TLC for RoundTrip / FailClosed / "
+   "NeverPartial; every behaviour replayed on real containers built from real sealed tokens with byte-level damage",
+   "TLC explores every insertion order of 3 tokens x 4 formats x {bytes,stream} writer x {bytes,stream} reader x up to 1 (quick) / 2 "
+   "(thorough) damage actions out of 7 entry corruptions, 4 frame corruptions and 3 benign changes, on reader machines that step like "
+   "readCar/readBlock/addToken and FromCborReader. Each behaviour is executed with real delegations and invocations of mixed key "
+   "algorithms: the real writer output is parsed, damaged at the byte level as the abstract action says (e.g. data modified and block "
+   "CID recomputed so that only signature verification can notice) and read with the real reader: undamaged/benign must give exactly "
+   "the tokens added under their true CIDs, harmful damage must give an error.",
+   "Trusts TLC and the harness' CAR/CBOR surgery; one representative byte position per damage class (all positions are covered for "
+   "single tokens by C06 and for streams by C18)."),
+ "C18": ("model_checking",
+   "TLA+ spec Stream.tla (reader machine with CIDReader latch and trailing probe vs the allowed outcome; writer with final flush) "
+   "model-checked with TLC; every behaviour replayed with fault-injecting io.Reader/io.Writer; faults at every byte offset and every "
+   "underlying write recorded and validated by TraceStream.tla",
+   "TLC checks for tokens, CBOR and CAR containers of 1..3 tokens, plain and base64, that a fault (read error or early EOF, at the "
+   "start of or inside every unit and after the last byte, both read shapes) never yields anything but an error - except the CAR cut "
+   "between blocks - and that every failed underlying write including the base64 flush surfaces. The replay runs each behaviour on "
+   "the real streaming APIs with 3 chunkings; the recorder then injects a fault at ~60 (quick) or every (thorough) byte offset and at "
+   "every underlying write of 6-9 artefacts x 3 paddings, and TLC accepts or rejects each recorded outcome with the same operator.",
+   "Trusts TLC, the harness' fault-injecting reader/writer and its classification of offsets into unit boundaries; signatures may "
+   "be randomized, so stream-vs-buffer byte equality is required only for deterministic schemes (CID = content address is always required)."),
+})
+
 NOT_YET = "check not built yet in this session (work in progress; see DESIGN.md section 3 for the planned model)"
 
 checks, na = [], []
